@@ -174,6 +174,30 @@ def to_number(value: JSValue) -> Union[int, float]:
     return float("nan")
 
 
+def _double_to_string(value: float) -> str:
+    """Number::toString for a finite non-zero double: the shortest round-tripping digits
+    (those of the host repr) laid out as ECMA-262 prescribes: plain notation from 1e-6
+    up to 1e21, otherwise d.ddde+x / d.ddde-x without padding of the exponent."""
+    mantissa, _, exponent = repr(abs(value)).partition("e")
+    int_part, _, frac_part = mantissa.partition(".")
+    digits = (int_part + frac_part).lstrip("0")
+    # n: position of the decimal point relative to the first significant digit
+    n = len(int_part) + int(exponent or 0) - (len(int_part + frac_part) - len(digits))
+    digits = digits.rstrip("0")
+    k = len(digits)
+    sign = "-" if value < 0 else ""
+    if k <= n <= 21:
+        return sign + digits + "0" * (n - k)
+    if 0 < n <= 21:
+        return sign + digits[:n] + "." + digits[n:]
+    if -6 < n <= 0:
+        return sign + "0." + "0" * -n + digits
+    exp_text = ("e+" if n > 0 else "e-") + str(abs(n - 1))
+    if k == 1:
+        return sign + digits + exp_text
+    return sign + digits[0] + "." + digits[1:] + exp_text
+
+
 def to_string(value: JSValue) -> str:
     """Convert a JavaScript value to string."""
     if value is UNDEFINED:
@@ -191,14 +215,9 @@ def to_string(value: JSValue) -> str:
             return "Infinity"
         if value == float("-inf"):
             return "-Infinity"
-        # Handle -0
-        if value == 0 and math.copysign(1, value) < 0:
+        if value == 0:  # both zeros print as "0"
             return "0"
-        # Format float nicely
-        s = repr(value)
-        if s.endswith(".0"):
-            return s[:-2]
-        return s
+        return _double_to_string(value)
     if isinstance(value, str):
         return value
     if isinstance(value, JSArray):
